@@ -37,6 +37,8 @@ end
 
 instance : DecidableEq Val := fun a b => decidable_of_iff _ (beqV_iff a b)
 
+deriving instance DecidableEq for Item
+
 /-! ## Part 1 — selectors -/
 
 section Sem
@@ -374,5 +376,9 @@ def gbArgs (g m : StrOrTuple) : List String × List String :=
 
 /-- the context of a value is well formed over an alphabet of `n` keys -/
 def Item.WF (n : Nat) (v : Item) : Prop := WFV n (.dict (v.context n))
+
+/-- the reference partition for any key type -/
+def groupsOfG {K : Type} [DecidableEq K] (key : Item → K) (xs : List Item) : List (K × List Item) :=
+  ((xs.map key).eraseDups).map (fun k => (k, xs.filter (fun v => key v = k)))
 
 end Lena.C15
